@@ -22,6 +22,18 @@ def build(ctx, nopool):
                               wraps=WRAPS, libs=(), nopool=nopool)
 
 
+REAL_SRCS = ['network/network_read.c', 'network/network_write.c', 'netbuf/netbuf_read.c', 'netbuf/netbuf_write.c',
+             'events/events.c', 'events/events_immediate.c', 'events/events_network.c',
+             'events/events_network_selectstats.c', 'events/events_timer.c', 'datastruct/timerqueue.c',
+             'datastruct/ptrheap.c', 'datastruct/elasticarray.c', 'util/monoclock.c', 'util/warnp.c']
+
+
+def build_real(ctx):
+    """Real-kernel soak driver: no interposition at all (real poll, recv, send, clock)."""
+    objs = ctx.builder.lib('asan', REAL_SRCS)
+    return ctx.builder.driver('c06real', 'asan', ['c06_real.c'], objs, libs=())
+
+
 def run(ctx):
     n = ctx.n(8000, 150000)
     per = max(1, n // core.NCPU)
@@ -30,8 +42,18 @@ def run(ctx):
         exe = build(ctx, bool(mode))
         for i in range(core.NCPU):
             jobs.append((exe, ctx.seed * 4447 + 11 + mode, i * per, per, ['nopool' if mode else 'pool'], None, 600 if ctx.quick() else 5000))
+    # real-kernel soak: same oracles (no timing rules) over AF_UNIX socketpairs with a forked scripted peer
+    rexe = build_real(ctx)
+    rper = ctx.n(40, 600)
+    for i in range(core.NCPU):
+        jobs.append((rexe, ctx.seed * 131 + 7, i * rper, rper, ['netbuf'], None, 900 if ctx.quick() else 6000))
     res = core.pmap(core.selfgen_shard, jobs)
     core.merge(ctx, res)
+    ctx.cov['real_kernel_soak'] = ('%d cases over real socketpairs/poll/clock with a forked peer (timing-independent rules only); '
+                                   '%d exceeded the 20 s wall-clock guard and were left undecided'
+                                   % (ctx.cov.get('real_cases', 0), ctx.cov.get('real_timeouts', 0)))
+    if ctx.cov.get('real_cases', 0) and ctx.cov.get('real_timeouts', 0) * 2 > ctx.cov.get('real_cases', 0):
+        ctx.note_inconclusive('more than half of the real-kernel soak cases timed out (machine overloaded?)')
     ctx.add_sample('reader history: seed-derived sequence of wait(k)/peek/consume(j)/cancel with k from 1 to 20000 on a keyed '
                    'peer stream; replay with ./check C07 --replay <file> prints the exact history')
     ctx.cov['rule'] = ('one evaluation = one history on the simulated kernel: a reader history of 2..40 operations wait(k) / peek / '
@@ -48,5 +70,8 @@ def run(ctx):
 
 def replay(ctx, case):
     mode = 1 if 'nopool' in case.get('args', []) else 0
-    exe = build(ctx, bool(mode))
+    if set(case.get('args', [])) & {'net', 'netbuf'}:
+        exe = build_real(ctx)      # a real-kernel soak case (timing is not reproducible exactly)
+    else:
+        exe = build(ctx, bool(mode))
     core.merge(ctx, [core.selfgen_shard((exe, case['seed'], case['index'], 1, case.get('args', [])))])
